@@ -16,7 +16,7 @@ def signature(e, clause):
         rows = T.seg_rows(e["v"], name) or []
         defined = set(r["i"] for r in rows)
         last = max(defined) if defined else 0
-        fields = line.split("|")[1:]
+        fields = line.split(chr(e["ec"][0]) if e.get("ec") else "|")[1:]
         holes = [i + 1 for i, f in enumerate(fields) if f and (i + 1) not in defined and (i + 1) < last]
         sig["content_at_withdrawn_position"] = bool(holes)
         leafxcn = [r["name"] for r in rows if r["kind"] == "complex" and r["max"] == 0 and len(fields) >= r["i"] and fields[r["i"] - 1]]
